@@ -6,6 +6,8 @@ ctx.fail (with the id of the known finding whose cause signature the failure mat
 """
 from __future__ import annotations
 
+import re
+
 import io
 import itertools
 
@@ -609,6 +611,7 @@ def check_C01(ctx: Ctx) -> None:
             ctx.fail("the writer raised (" + line.rsplit(" ", 1)[-1] + ") on well-formed statements that fit the lookup tables", dict(request=req))
         elif [stmt_text(x) for x in real_parse_flat_safe(b)] != [stmt_text(x) for x in expected_events(stmts, "T")]:
             ctx.fail("round trip differs", dict(request=req))
+    _tables_larger_than_names(ctx, ctx.rng("big-tables"), ctx.n(10, 100), integrations=("generic",))
     # the sizing predicate the theorems assume is the one the generator enforces
     _fits_correspondence(ctx, r)
 
@@ -668,6 +671,33 @@ def check_C03(ctx: Ctx) -> None:
     _c03_graph_api(ctx, ctx.rng("graph-api"))
     _c03_reused_options(ctx, ctx.rng("reused-options"))
     _tiny_prefix_tables(ctx, ctx.rng("tiny-prefix"), ctx.n(80, 800))
+    _continue_after_refusal(ctx, ctx.rng("continue"), ctx.n(40, 400), "unsupported")
+    _continue_after_refusal(ctx, ctx.rng("continue2"), ctx.n(30, 300), "too-big")
+    # an output stream that takes none (or only part) of what it is handed: a call that returns normally must have written a
+    # stream a conformant consumer can read — otherwise it must raise
+    import rimpl
+    from pyjelly.integrations.rdflib import serialize as rser
+    rw = ctx.rng("writes")
+    for i in range(ctx.n(12, 120)):
+        cls = rw.choice("TQ")
+        o = Opts(fs=250, lt=0, gen=False, star=False, delim=rw.random() < 0.5, pn=16, pp=8, pd=8)
+        stmts = _rdf11_statements(rw, cls, o, rw.randint(1, 4))
+        if not stmts:
+            continue
+        sink = _ShortWriter(rw.choice([0, 0, 5]))
+        try:
+            stream, opts = rimpl.make_stream(cls, o)
+            rser.RDFLibJellySerializer(_to_store(stmts, cls)).serialize(sink, options=opts, stream=stream)
+        except Exception:  # noqa: BLE001
+            ctx.dist["short_output_stream:refused"] += 1
+            continue
+        ctx.case(("short-output", cls, o.token(), stmts_text(stmts), sink.limit), True)
+        verdict, evs_w, _ = parse_spec_response(__import__("common").run_driver([spec_line(bytes(sink.data), o.delim)])[0])
+        want_w = sorted(_norm_text("S" + stmt_text(gen.normalize_stmt(x))) for x in expected_events(stmts, cls))
+        got_w = sorted(_norm_text(e) for e in evs_w.split(" ") if e.startswith("S"))
+        if verdict != "ok" or got_w != want_w:
+            ctx.fail(f"the rdflib serializer returned normally although its output stream took only {len(sink.data)} bytes; what it holds is not a valid stream denoting the data ({verdict}, {len(got_w)} of {len(want_w)} statements)",
+                     dict(opts=o.describe(), taken=len(sink.data), write_limit=sink.limit))
 
 
 def _c03_version_cases(ctx: Ctx) -> None:
@@ -880,6 +910,53 @@ def check_C19(ctx: Ctx) -> None:
         ctx.dist["bytes_total"] += len(c["bytes"])
     _c19_rdflib(ctx, r)
     _c19_after_rejection(ctx, ctx.rng("after-rejection"))
+    _c19_larger_than_default(ctx)
+
+
+def _c19_larger_than_default(ctx: Ctx) -> None:
+    """Tables DECLARED larger than the library's defaults (4000 / 150 / 32) and filled beyond the default size, through the
+    convenience entry points that build stream and encoder from the options: every string is sent once (an encoder built with
+    other sizes than the declared ones evicts early and sends strings again)."""
+    import common
+
+    o = Opts(fs=250, lt=1, gen=True, star=True, delim=True, pn=4096, pp=400, pd=64)
+    n_ns, n_dt = 230, 48
+    stmts = []
+    for rnd in range(2):       # every namespace and datatype used, then used again
+        for j in range(n_ns):
+            obj = Literal(str(j), datatype=f"urn:dt:wide{j % n_dt}") if j % 2 else IRI(f"http://wide{(j * 7) % n_ns}.example/ns#o")
+            stmts.append(Triple(IRI(f"http://wide{j}.example/ns#s"), IRI("http://wide0.example/ns#p"), obj))
+    cases = [("flat_stream_to_frames", impl.run_ser_flat(o, stmts)), ("sink.serialize / stream_frames", impl.run_ser_frames("T", o, stmts, is_sink=False))]
+    lines = common.run_driver([spec_line(b, True) for _, (line, b) in cases if b])
+    for (label, (line, b)), ref in zip(cases, lines):
+        ctx.case(("larger-than-default", label), True)
+        ctx.dist["presets_larger_than_default"] += 1
+        verdict, _, audit = parse_spec_response(ref)
+        bad = {k: v for k, v in audit.items() if v and k != "g"}
+        # the declared tables hold every distinct string: each must have been sent exactly once
+        sent = {"prefix": [], "datatype": [], "name": []}
+        pos = 0
+        while b and pos < len(b):
+            ln, used = 0, 0
+            while True:
+                byte = b[pos + used]
+                ln |= (byte & 0x7F) << (7 * used)
+                used += 1
+                if not byte & 0x80:
+                    break
+            fr = jelly.RdfStreamFrame()
+            fr.ParseFromString(b[pos + used: pos + used + ln])
+            pos += used + ln
+            for row in fr.rows:
+                k = row.WhichOneof("row")
+                if k in sent:
+                    sent[k].append(getattr(row, k).value)
+        for k, vals in sent.items():
+            if len(vals) != len(set(vals)):
+                bad[f"{k}_entries_sent_twice"] = len(vals) - len(set(vals))
+        if not line.endswith(" end") or verdict != "ok" or bad:
+            ctx.fail(f"{label} with a 4096/400/64 preset and 230 namespaces / 48 datatypes in use: {line[-30:]}, referee {verdict}, audit {bad}",
+                     dict(opts=o.describe(), statements=len(stmts)))
 
 
 def _c19_after_rejection(ctx: Ctx, r) -> None:
@@ -1437,7 +1514,7 @@ def _c06_short_writes(ctx: Ctx, r) -> None:
         stmts = _rdf11_statements(r, cls, o, r.randint(3, 30))
         if not stmts:
             continue
-        limit = r.choice([1, 2, 3, 7, 40, 200, 1000, 10**9])
+        limit = r.choice([0, 0, 1, 2, 3, 7, 40, 200, 1000, 10**9])  # 0: a stream whose quota is used up takes nothing
         how = r.choice(["generic-flat", "generic-grouped", "rdflib-flat", "rdflib-grouped", "rdflib-serializer", "rdflib-plugin"])
         out = _ShortWriter(limit)
         so = o.real()
@@ -1917,7 +1994,7 @@ def check_C07(ctx: Ctx) -> None:
 # C08 / C09 / C10
 # ---------------------------------------------------------------------------------------------
 
-def _c08_partial_writes(ctx: Ctx, cls: str, o: Opts, stmts) -> None:
+def _c08_partial_writes(ctx: Ctx, cls: str, o: Opts, stmts, cap: int = 7) -> None:
     from pyjelly.integrations.rdflib import serialize as rser
 
     import rimpl
@@ -1930,20 +2007,8 @@ def _c08_partial_writes(ctx: Ctx, cls: str, o: Opts, stmts) -> None:
         oo = Opts(**{**o.__dict__})
         oo.delim, oo.gen, oo.star = delim, False, False
 
-        class Capped(io.RawIOBase):
-            def __init__(self):
-                super().__init__()
-                self.taken = bytearray()
-
-            def writable(self):
-                return True
-
-            def write(self, b):
-                k = min(len(b), 7)
-                self.taken += bytes(b[:k])
-                return k
-
-        sink = Capped()
+        sink = _ShortWriter(cap)
+        sink.taken = sink.data
         try:
             stream, opts = rimpl.make_stream(cls, oo)
             rser.RDFLibJellySerializer(store).serialize(sink, options=opts, stream=stream)
@@ -2044,8 +2109,30 @@ def check_C08(ctx: Ctx) -> None:
                              dict(bytes=out[delim].hex(), got=line[:300], want=pa[:300]))
         # ... and written to an output stream that takes only part of what it is handed: the two modes behave alike
         # (both refuse, or both files hold the same content)
-        _c08_partial_writes(ctx, cls, o, stmts)
+        _c08_partial_writes(ctx, cls, o, stmts, cap=7)
+        _c08_partial_writes(ctx, cls, o, stmts, cap=0)   # a stream that takes nothing at all
+        # what the reader is TOLD about the framing (ParserOptions.params.delimited) is the mode the bytes were written in
+        for delim in (True, False):
+            told = impl.run_par("options", False, "seek", out[delim])
+            if f"delim={'true' if delim else 'false'}" not in told:
+                ctx.fail(f"a {'delimited' if delim else 'non-delimited'} stream is reported to the reader as {told[-40:]}", dict(bytes=out[delim].hex()))
     ctx.corr("HINT", reqs, resp)
+    # a frame longer than the reader's chunk size (1 MiB, not a multiple of it) followed by more frames: both framings of
+    # the same content parse alike
+    for size in (1048577 + 80, 1572945):
+        big = [Triple(IRI("http://big/s"), IRI("http://big/p"), Literal("x" * size)),
+               Triple(IRI("http://big/s2"), IRI("http://big/p"), Literal("after")), Triple(IRI("http://big/s3"), IRI("http://big/p"), Literal("last"))]
+        o = Opts(fs=1, lt=1, gen=True, star=True, pn=16, pp=8, pd=8)
+        outs = {}
+        for delim in (True, False):
+            o.delim = delim
+            line, b = impl.run_ser_frames("T", o, big, is_sink=False)
+            outs[delim] = impl.run_par("flat", False, "seek", b) if line.endswith(" end") and b else line[-40:]
+        ctx.case(("big-frame-pair", size), True)
+        ctx.dist["paired_outputs_with_a_frame_over_1MiB"] += 1
+        if outs[True] != outs[False] or not outs[True].endswith(" end") or outs[True].count("S") < 3:
+            ctx.fail(f"content with a {size}-byte literal parses differently in the two framings (delimited: …{outs[True][-60:]}; non-delimited: …{outs[False][-60:]})",
+                     dict(literal_bytes=size))
     _c08_positioned_and_plugin(ctx, r)
     # reference-encoder streams: first frame empty or starting with a row, every first-frame / first-row length
     for i in range(ctx.n(200, 2000)):
@@ -2410,6 +2497,15 @@ def check_C10(ctx: Ctx) -> None:
                 if grown.rpartition(" ")[0] != body:
                     ctx.fail(f"a stream cut at {k} parses differently when it had {v0} bytes at the time the parser opened it ({src.split(':')[0]})",
                              dict(bytes=b.hex(), cut=k, visible_at_open=v0, source=src, got=grown[-400:], want=line[-400:]))
+            if k >= 1 and (k in ends or k % 13 == 0):
+                # the same cut stream arriving through a non-seekable source whose first reads are short (1 byte at a time;
+                # 2 bytes then the rest): the transport's chunking must not change what a truncated stream yields
+                for sched in ("1", "2,4096", "1,1,4096"):
+                    chunked = impl.run_par("flat", False, f"raw:{sched}", b[:k])
+                    ctx.dist["cuts_through_short_reads"] += 1
+                    if chunked.rpartition(" ")[0] != body:
+                        ctx.fail(f"a stream cut at {k} yields something else when it arrives in reads of {sched} bytes",
+                                 dict(bytes=b.hex(), cut=k, schedule=sched, got=chunked[-400:], want=line[-400:]))
             if ctx.quick() and k % 7 != 0 and k not in ends:
                 continue
             reqs.append(f"par flat 0 1 seek {b[:k].hex()}" if k else "par flat 0 1 seek")
@@ -2417,8 +2513,24 @@ def check_C10(ctx: Ctx) -> None:
         if len(ks) == len(b) + 1:
             ctx.dist["streams_cut_exhaustively"] += 1
     ctx.corr("IO", reqs, resp)
+    # complete streams whose prefix / datatype tables are larger than the name table and fully used (cut at the very end)
+    _tables_larger_than_names(ctx, ctx.rng("big-tables"), ctx.n(6, 60))
     # the rdflib integration on the same kind of cuts (RDF 1.1 reference streams): prefix, and delivered frames delivered
     import rimpl
+    # ... typed literals in legal but non-canonical lexical forms: what the rdflib reader yields from every cut is a prefix of
+    # what the stream DENOTES (lexical forms as transmitted), frame by frame
+    XS = gen.XSD
+    nc = [Triple(IRI(f"http://nc/s{j}"), IRI("http://nc/p"), Literal(lex, datatype=XS + dt))
+          for j, (lex, dt) in enumerate([("01", "integer"), ("+7", "integer"), ("1.50", "decimal"), ("1", "boolean"), ("1.0E0", "double"), (" 1 ", "int")])]
+    line_nc, b_nc = impl.run_ser_frames("T", Opts(fs=2, pn=16, pp=4, pd=8), nc, is_sink=False)
+    want_nc = [_norm_text("S" + stmt_text(x)) for x in nc]
+    for k in range(0, len(b_nc) + 1, 3):
+        got_nc = [_norm_text(e) for e in rimpl.run_par_flat(False, "seek", b_nc[:k]).split(" ") if e.startswith("S")]
+        ctx.dist["rdflib_cuts_noncanonical"] += 1
+        if got_nc != want_nc[: len(got_nc)]:
+            ctx.fail("rdflib: a cut stream yields a statement that is not the one in the original at that position (lexical form rewritten)",
+                     dict(bytes=b_nc.hex(), cut=k, got=got_nc[-2:], want=want_nc[: len(got_nc)][-2:]))
+            break
     reqs, resp = [], []
     for i in range(ctx.n(20, 200)):
         g = gen.G(r, star=False, generalized=False, case_langs=False)
@@ -3111,6 +3223,25 @@ def check_C12(ctx: Ctx) -> None:
         if got_first != want_ns or got_rest or got_whole != want_ns:
             ctx.fail("a sink read back carries namespace bindings that its stream did not declare (or lacks declared ones)",
                      dict(bytes=b.hex(), declared=want_ns, first_sink=got_first, later_sinks=got_rest[:6], to_graph=got_whole))
+    # (0c) the bytes depend on the statements, not on which Python objects carry them: every term rebuilt as a fresh, equal
+    # object (what a parser or a generator hands over) gives the same bytes
+    def _fresh(t):
+        if isinstance(t, IRI):
+            return IRI(str(iri_s(t)))
+        if isinstance(t, BlankNode):
+            return BlankNode(str(bn_id(t)))
+        if isinstance(t, Literal):
+            return Literal("" + lit_lex(t), lit_lang(t), lit_dt(t))
+        if isinstance(t, (Triple, Quad)):
+            return type(t)(*[_fresh(x) for x in t])
+        return t
+    fresh_work = [(cls, o, [_fresh(x) for x in st]) for cls, o, st in work]
+    fresh = _c12_bytes(fresh_work)
+    ctx.dist["rerun_with_fresh_equal_objects"] += len(work)
+    if fresh != alone:
+        ctx.fail("bytes differ when the same statements are carried by other (equal) Python objects",
+                 dict(index=[i for i, (a, b) in enumerate(zip(alone, fresh)) if a != b][:5],
+                      request=[q for q, a, b in zip(reqs, alone, fresh) if a != b][:1]))
     # (1) prior history: abandoned streams, then again
     for cls, o, st in work[:6]:
         try:
@@ -3339,6 +3470,19 @@ def _c12_rdflib_defaults(ctx: Ctx, r) -> None:
                 ctx.fail(f"rdflib {name} with guessed options: two runs over the same statements write different bytes",
                          dict(entry=name, first=a.hex()[:300], second=b.hex()[:300]))
     digest = _c12_rdflib_defaults_digest()
+    # the default graph named by the rdflib constant and by an equal URIRef built from its string: same bytes
+    from rdflib.graph import DATASET_DEFAULT_GRAPH_ID as _DG
+    from pyjelly.integrations.rdflib import parse as _rparse
+
+    def quad_bytes(gname):
+        out = io.BytesIO()
+        qs = [_rparse.Quad(rdflib.URIRef(f"http://d/s{j}"), rdflib.URIRef("http://d/p"), rdflib.Literal(str(j)), gname if j % 2 == 0 else rdflib.URIRef("http://d/g")) for j in range(4)]
+        rser.flat_stream_to_file((x for x in qs), out)
+        return out.getvalue()
+    ctx.case(("rdflib-default-graph-by-value",), True)
+    if quad_bytes(_DG) != quad_bytes(rdflib.URIRef(str(_DG))):
+        ctx.fail("rdflib: quads in the default graph are written differently when the graph name is an equal URIRef that is not the constant object",
+                 dict(constant=quad_bytes(_DG).hex()[:200], equal_uriref=quad_bytes(rdflib.URIRef(str(_DG))).hex()[:200]))
     code = ("import sys; sys.path.insert(0, %r); import common, props, framework, hashlib; "
             "ctx = framework.Ctx('C12', 'quick', 0); print(props._c12_rdflib_defaults_digest())") % os.path.dirname(os.path.abspath(__file__))
     for hs in ("0", "7", "random"):
@@ -3589,6 +3733,7 @@ def check_C18(ctx: Ctx) -> None:
         ctx.fail(f"written file decodes to different data ({verdict})",
                  dict(request=c["req"], referee=line[:1200], want=want[:1200]))
     _c18_rdflib(ctx, r)
+    _continue_after_refusal(ctx, ctx.rng("continue"), ctx.n(60, 600), "too-big")
 
 
 def _c18_rdflib(ctx: Ctx, r) -> None:
@@ -3735,6 +3880,68 @@ def _tables_larger_than_names(ctx: Ctx, r, n: int, integrations=("generic", "rdf
         elif not line_r.endswith(" end") or [_norm_text(x) for x in got_r] != [_norm_text(x) for x in want]:
             ctx.fail(f"{pn}/{pp}/{pd} tables, ids above the name-table size: the rdflib reader does not return what the {integ} writer wrote",
                      dict(opts=o.describe(), bytes=b.hex()[:3000], got=line_r[-200:], want=want[-3:]))
+
+
+def _continue_after_refusal(ctx: Ctx, r, n: int, mode: str) -> None:
+    """A Triple/QuadStream driven statement by statement (catch and continue), with statements the writer refuses in between:
+    mode 'unsupported' — a new table-free subject, the previous predicate again, then an object Jelly cannot carry, and afterwards
+    a statement with that same subject; mode 'too-big' — a statement needing one prefix more than the (1..2 slot) table holds,
+    refused after it had changed the tables, and afterwards statements re-using its IRIs. What was written must be valid for
+    the referee and denote exactly the statements whose call returned normally (a stream that refuses everything afterwards is
+    fine). Bytes of every step are compared with the model."""
+    import common
+
+    reqs, resp, metas = [], [], []
+    for i in range(n):
+        cls = r.choice("TQ")
+        if mode == "too-big":
+            pp = r.choice([1, 2])
+            o = Opts(fs=r.choice([1, 3, 250]), lt=0, gen=True, star=True, delim=True, pn=16, pp=pp, pd=4)
+            spaces = [f"http://ov{j}.example/" for j in range(pp + 2)]
+            mk = lambda k: IRI(spaces[k % len(spaces)] + r.choice("abc"))  # noqa: E731
+            good = lambda: tuple(IRI(spaces[0] + r.choice("abc")) for _ in range(3))  # noqa: E731
+            bad = lambda: tuple(mk(k) for k in range(3)) if pp == 2 else (mk(0), mk(1), mk(0))  # noqa: E731  pp+1 prefixes in one row
+        else:
+            o = Opts(fs=r.choice([1, 3, 250]), lt=0, gen=True, star=True, delim=True, pn=16, pp=4, pd=4)
+            pred = IRI("http://ca.example/p")
+            good = lambda: (BlankNode(r.choice(["s0", "s1"])), pred, Literal(r.choice("xyz")))  # noqa: E731
+            bad = None
+        ops, sts = [("enroll",)], []
+        for j in range(r.randint(4, 8)):
+            if j >= 1 and r.random() < 0.35:
+                if mode == "too-big":
+                    st = bad()
+                else:
+                    subj = BlankNode("rej%d" % j)
+                    st = (subj, pred, UNSUPPORTED)
+                    sts.append(st)
+                    ops.append(("t" if cls == "T" else "q", st if cls == "T" else (*st, DefaultGraph)))
+                    st = (subj, pred, Literal("after"))   # the same new subject, offered again in an encodable statement
+            else:
+                st = good()
+            sts.append(st)
+            ops.append(("t" if cls == "T" else "q", st if cls == "T" else (*st, DefaultGraph)))
+        ops.append(("flush",))
+        line = impl.run_step(cls, o, ops)
+        reqs.append(f"step {cls} {o.token()} " + " ".join(impl.step_op_token(op) for op in ops))
+        resp.append(line)
+        toks = line.rsplit(" flow=", 1)[0].split(" ")
+        accepted = [op[1] for op, t in zip(ops, toks) if op[0] in ("t", "q") and "!" not in t]
+        refused = sum(1 for op, t in zip(ops, toks) if op[0] in ("t", "q") and "!" in t)
+        frames = b"".join(bytes.fromhex(f[1:]) for t in toks for f in t.split("+") if f.startswith("F"))
+        ctx.case((mode, reqs[-1]), refused > 0)
+        ctx.dist[f"continue_after_refusal:{mode}:" + ("with_refusal" if refused else "none_refused")] += 1
+        metas.append((reqs[-1], cls, accepted, frames, refused))
+    model = [m.replace("~", "") for m in common.run_driver(reqs)]
+    for q, a, m in zip(reqs, resp, model):
+        ctx.compare("SERSTEP", q, a, m)
+    got = common.run_driver([spec_line(fr, True) for _, _, _, fr, _ in metas])
+    for (req, cls, accepted, frames, refused), line in zip(metas, got):
+        verdict, evs, _ = parse_spec_response(line)
+        want = " ".join("S" + stmt_text(x) for x in expected_events([Triple(*a) if len(a) == 3 else Quad(*a) for a in accepted], cls)) or "_"
+        if verdict != "ok" or _norm_text(evs) != _norm_text(want):
+            ctx.fail(f"a stream continued after {refused} refused statement(s) ({mode}): what was written is not valid / does not denote the accepted statements ({verdict})",
+                     dict(request=req[:2500], referee=line[:800], want=want[:800]))
 
 
 def check_C20(ctx: Ctx) -> None:
@@ -4040,6 +4247,11 @@ def check_C17(ctx: Ctx) -> None:
     for declared in (2**32, 2**36, 2**40, 2**62):
         for e in ("flat:seek", "flat:file", "grouped:file", "flat:raw:4096", "flat:raw:1", "rflat:file"):
             inputs.append(("hostile", e, _varint(declared) + body))
+    # ... with the peak of Python-level allocations traced (a buffer of the declared size that is allocated but never touched
+    # does not show in the resident set): declared 64 MiB, 512 MiB, 1 GiB - 1 from a file and from a non-seekable source
+    for declared in (2**26, 2**29, 2**30 - 1):
+        for e in ("tm:flat:file", "tm:flat:raw:4096"):
+            inputs.append(("declared-frame-traced", e, _varint(declared) + body))
     # lookup tables are capped at 4096 entries each: an options row declaring more — by one, by ten times, by a million — is
     # refused whatever follows (the cap is part of the property, not only of the generated constants)
     for field in ("max_name_table_size", "max_prefix_table_size", "max_datatype_table_size"):
@@ -4092,6 +4304,14 @@ def check_C17(ctx: Ctx) -> None:
         oc = out.rsplit(" ", 1)[-1]
         ctx.dist["outcome:" + (oc if oc.startswith("!") or oc in ("end", "HANG") else "end")] += 1
         raw = ":raw" in entry
+        if kind == "declared-frame-traced":
+            m_tm = re.search(r" tm=(\d+)$", out)
+            peak_kb = int(m_tm.group(1)) if m_tm else 0
+            out = out[: m_tm.start()] if m_tm else out
+            oc = out.rsplit(" ", 1)[-1]
+            entry = entry[3:]
+            if peak_kb > 16 * 1024:
+                ctx.fail(f"{peak_kb // 1024} MiB allocated while parsing {len(b)} bytes that merely DECLARE a long frame", dict(entry=entry, bytes=b.hex()))
         if kind == "table-above-cap" and not oc.startswith("!"):
             ctx.fail("a stream declaring a lookup table of more than 4096 entries was accepted", dict(entry=entry, bytes=b.hex(), outcome=out[-80:]))
         if out == "HANG" or ms > 5000:
@@ -4672,7 +4892,21 @@ def check_C14(ctx: Ctx) -> None:
             ctx.fail("rdflib: namespace declarations read back differ from Graph.namespaces()", dict(request=req, got=got_ns[:6]))
         back = Graph() if data_cls == "T" else Dataset()
         _ = back.namespace_manager  # rdflib creates it lazily and would re-bind its defaults over what was read
-        back.parse(data=b, format="jelly")
+        try:
+            back.parse(data=b, format="jelly")
+        except Exception as e:  # noqa: BLE001
+            ctx.fail(f"rdflib: a stream written with namespace declarations does not parse back ({type(e).__name__}: {e})", dict(request=req))
+            continue
+        # the grouped reader too (QUADS / GRAPHS streams go through another branch of it than TRIPLES streams)
+        try:
+            from pyjelly.integrations.rdflib.parse import parse_jelly_grouped as _rgrouped
+            gsinks = list(_rgrouped(io.BytesIO(b)))
+            ghave = {(p, str(u)) for sk in gsinks for p, u in sk.namespaces()}
+            gmissing = [x for x in want_ns if x not in ghave]
+            if gmissing:
+                ctx.fail("rdflib: bindings missing from the graphs/datasets of parse_jelly_grouped", dict(request=req, missing=gmissing[:5]))
+        except Exception as e:  # noqa: BLE001
+            ctx.fail(f"rdflib parse_jelly_grouped raised {type(e).__name__} on a stream with namespace declarations: {e}", dict(request=req))
         have = {(p, str(u)) for p, u in back.namespaces()}
         missing = [x for x in want_ns if x not in have]
         if missing:
@@ -4898,6 +5132,28 @@ def check_C15(ctx: Ctx) -> None:
         if rb != gb:
             ctx.fail("generic and rdflib GROUPED serializers differ on corresponding stores sharing one stream",
                      dict(opts=o.describe(), generic=gb.hex()[:400], rdflib=rb.hex()[:400], stores=[len(sk) for sk in sinks]))
+    # (c3b) which configurations the two grouped entry points ACCEPT: the same options (every grouped logical type, base and
+    # sub-types) on corresponding stores are accepted by both integrations or refused by both
+    for data_cls in "TQ":
+        for lt in (3, 13, 4, 14, 114, 1, 2):
+            o = Opts(fs=250, lt=lt, gen=False, star=False, delim=True, pn=16, pp=4, pd=4)
+            stmts = _rdf11_statements(r, data_cls, o, 2)
+            if not stmts:
+                continue
+            store = _to_store(stmts, data_cls)
+            sink = mk_sink([type(st)(*st) for st in stmts])
+            outcome = {}
+            for name, fn, data in (("rdflib", rser.grouped_stream_to_frames, store), ("generic", gser.grouped_stream_to_frames, sink)):
+                try:
+                    frames = list(fn((x for x in [data]), options=o.real()))
+                    outcome[name] = "ok" if frames else "nothing"
+                except Exception as e:  # noqa: BLE001
+                    outcome[name] = "raised"
+            ctx.case(("ser-pair-accept", data_cls, lt), True)
+            ctx.dist["serializer_pairs_acceptance"] += 1
+            if outcome["rdflib"] != outcome["generic"]:
+                ctx.fail(f"grouped_stream_to_frames with logical type {lt} on a {'Graph' if data_cls == 'T' else 'Dataset'}: rdflib {outcome['rdflib']}, generic {outcome['generic']}",
+                         dict(opts=o.describe(), data=data_cls))
     # (c4) the SAME generic term objects written twice, under different prefix-table settings: nothing may be remembered on the
     # terms between two serializations
     for i in range(ctx.n(40, 400)):
